@@ -36,6 +36,9 @@ def worker_main(prop, bseed, tier, start, stride, count, wall, indices=None):
     core.bootstrap()
     if hasattr(mod, 'worker_init'):
         mod.worker_init()
+    import gc
+    gc.collect()
+    gc.freeze()   # children forked per case must not traverse (and copy-on-write) the whole inherited heap in their collections
     t0 = time.monotonic()
     timeout = getattr(mod, 'CASE_TIMEOUT', 60.0)
     out = sys.stdout
